@@ -1,6 +1,7 @@
 import FimVerif.Generated.Cypher
 import FimVerif.Proofs.Lemmas.C19Render
 import FimVerif.Proofs.Lemmas.C19Partial
+import FimVerif.Proofs.Lemmas.C19Holes
 /-!
 # C19 — persistent-backend statements are well-formed and data-independent
 
@@ -18,6 +19,14 @@ import FimVerif.Proofs.Lemmas.C19Partial
 * `data_independent_up_to_leaks_partial` — the strongest guarded form that holds for EVERY template today: the text depends on
   no stored value other than the ones `leaks` names; `leaked_values_exact` pins those per known-bad call site.
 * `params_supplied`, `wellformed_canonical`, `wellformed_all_values_except_listed`, `injection_rewrites_statement`.
+* `lint_verdict_independent_of_identifiers` - for ALL texts with identifier holes: the whole result of the lint (defects, unbound
+  variables, missing parameters) is the same whatever identifier-shaped non-keyword strings fill the holes; `bound_ok` (every
+  referenced variable bound under Cypher scoping: WITH / UNION project, YIELD / UNWIND … AS / patterns / comprehensions bind,
+  clause by clause) in particular.
+* `wellformed_all_identifiers` - hence every generated template, in every argument shape (mappings absent/empty, one, two, three
+  entries; with and without counted components), is well-formed for ALL class / relation / property names (one kernel evaluation
+  per template and shape, `hole_templates_clean`, decides them all); `wellformed_all_identifiers_all_values` adds all stored values
+  for the value-free call sites.
 
 FULL STATEMENT (violated by the code as it is, see the `_counterexample`s and known_findings/C19.json):
   ∀ op ∈ ops, ∀ e1 e2, e1.erase = e2.erase → render e1 op.tpl = render e2 op.tpl
@@ -337,5 +346,120 @@ theorem injection_rewrites_statement :
       t!"MATCH (s:GraphNode {GraphID: $graphId, NodeID: $nodeId}) SET s+= { Name: 'x'} DETACH DELETE s //' } RETURN properties(s)"
     ∧ checkStmt (render e op_Neo4jPropertyGraph_update_node_properties_s0_v0.tpl)
         op_Neo4jPropertyGraph_update_node_properties_s0_v0.supplied = true := by decide +kernel
+
+
+/-! ### well-formedness for ALL identifiers -/
+
+/-- every referenced variable is bound where it is referenced (Cypher scoping) - decidable: it is a `Bool` -/
+def bound_ok (text : Text) : Bool := (lint text []).unbound.isEmpty
+
+/-- DATA-INDEPENDENCE OF THE VERDICT: for every text `t` with identifier holes that passes the decidable side conditions `cleanFor`
+(holes are whole words, at positions where the scoping pass ignores identifiers: labels, relationship types, property names, map
+keys, or inside literals), and every assignment `ρ` of identifier-shaped non-keyword strings to the holes, the lint returns on the
+filled text exactly what it returns on the text with holes: same defects, same unbound variables, same missing parameters. -/
+theorem lint_verdict_independent_of_identifiers (ρ : Nat → Text) (hρ : GoodSubst ρ) (t : Text) (hc : cleanFor t = true)
+    (sup : List Text) : lint (expand ρ t) sup = lint t sup := lint_expand hρ t hc sup
+
+/-- in particular any two fillings get the same verdict, and "every referenced variable bound" does not depend on the filling -/
+theorem bound_ok_independent_of_identifiers (ρ₁ ρ₂ : Nat → Text) (h₁ : GoodSubst ρ₁) (h₂ : GoodSubst ρ₂) (t : Text)
+    (hc : cleanFor t = true) : bound_ok (expand ρ₁ t) = bound_ok (expand ρ₂ t) := by
+  unfold bound_ok; rw [lint_expand h₁ t hc, lint_expand h₂ t hc]
+
+/-- non-vacuity: a filling with the library's own names; the merge statement with holes in its map keys is clean -/
+def rhoSample : Nat → Text := fun k => if k == 0 then t!"NetworkNode" else if k == 3 then t!"Capacities" else if k == 20 then t!"Site" else t!"has"
+example : GoodSubst rhoSample := by
+  constructor
+  · intro k; unfold rhoSample; split; decide +kernel; split; decide +kernel; split; decide +kernel; decide +kernel
+  · intro k _; unfold rhoSample; split; decide +kernel; split; decide +kernel; split; decide +kernel; decide +kernel
+example : cleanFor (render (holeEnv 2 true) op_Neo4jPropertyGraph_merge_nodes_s0_v0.tpl) = true := by decide +kernel
+
+set_option maxRecDepth 1000000 in
+/-- Cypher scoping is what the binder follows.  (1) a WITH closes the scope: `n` is bound by the MATCH, projected away by
+`with head(collect([n, m])) as nodes`, and its later use is reported; (2) the same reference BEFORE the WITH is fine; (3) `WITH *`
+keeps everything; (4) YIELD and UNWIND … AS introduce their names; (5) a reference in a clause that precedes the binding clause is
+reported (binding is sequential); (6) UNION starts from nothing. -/
+theorem scoping_follows_cypher :
+    (lint t!"match (n:GraphNode {GraphID: $g}), (m:GraphNode {GraphID: $h}) with head(collect([n, m])) as nodes call apoc.refactor.mergeNodes(nodes, {mergeRels: true}) yield node set node.GraphID = n.GraphID return node" [t!"g", t!"h"]).unbound = [t!"n"] ∧
+    (lint t!"match (n:GraphNode {GraphID: $g}), (m:GraphNode {GraphID: $h}) set m.GraphID = n.GraphID with head(collect([n, m])) as nodes call apoc.refactor.mergeNodes(nodes, {mergeRels: true}) yield node return node" [t!"g", t!"h"]).defects = [] ∧
+    (lint t!"match (n:GraphNode {GraphID: $g}) with *, count(n) as c set n.Count = c return n" [t!"g"]).defects = [] ∧
+    (lint t!"match (a {GraphID: $g}) call apoc.nodes.delete(a, 10) yield value unwind value as v return v, w" [t!"g"]).unbound = [t!"w"] ∧
+    (lint t!"match (a {GraphID: $g}) where b.NodeID = a.NodeID match (b) return a" [t!"g"]).unbound = [t!"b"] ∧
+    (lint t!"match (a {GraphID: $g}) return a as x union match (b) return a as x" [t!"g"]).unbound = [t!"a"] := by decide +kernel
+
+set_option maxRecDepth 1000000 in
+/-- clause structure: a clause keyword, boolean word or operator symbol without its operand, a dangling comma, clauses in an order
+Cypher rejects -/
+theorem clause_structure_checked :
+    (lint t!"MATCH(n:GraphNode:NetworkNode {GraphID: $g, Site: \"RENC\" }) WHERE  RETURN collect(n.NodeID) as candidate_ids" [t!"g"]).defects = ["empty-clause"] ∧
+    (lint t!"MATCH (n {GraphID: $g}) WHERE n.a = 1 and  RETURN n" [t!"g"]).defects = ["empty-clause"] ∧
+    (lint t!"MATCH (n {GraphID: $g}) WHERE ( and n.a = 1) RETURN n" [t!"g"]).defects = ["missing-operand"] ∧
+    (lint t!"MATCH (n {GraphID: $g}) SET n.a =  RETURN n" [t!"g"]).defects = ["missing-operand"] ∧
+    (lint t!"MATCH (n {GraphID: $g, Name: }) RETURN n" [t!"g"]).defects = ["missing-operand"] ∧
+    (lint t!"MATCH (n {GraphID: $g, }) RETURN n" [t!"g"]).defects = ["dangling-comma"] ∧
+    (lint t!"MATCH (n {GraphID: $g}) WHERE n.a = 1 WHERE n.b = 2 RETURN n" [t!"g"]).defects = ["clause-order"] ∧
+    (lint t!"MATCH (n {GraphID: $g}) RETURN n SET n.a = 1" [t!"g"]).defects = ["clause-order"] ∧
+    (lint t!"MATCH (n {GraphID: $g}) WHERE n.a = 1" [t!"g"]).defects = ["clause-order"] := by decide +kernel
+
+set_option maxRecDepth 1000000 in
+/-- the library's own vocabularies (regenerated from abc_property_graph_constants.py) are identifier-shaped non-keyword strings:
+the hole theorems cover every class, relation and property name the library knows -/
+theorem vocabulary_fills_holes : ∀ x ∈ classesT ++ relsT ++ propsT, identOK x = true := by decide +kernel
+
+/-- what is checked on a template rendered with holes: the side conditions of the two commutation theorems, and the lint itself -/
+def holeChecked (op : Op) (e : Env) : Bool :=
+  renderOK e op.tpl && cleanFor (render e op.tpl) && checkStmt (render e op.tpl) op.supplied
+
+set_option maxRecDepth 1000000 in
+/-- templates that iterate over no mapping: ONE evaluation with a hole in every identifier slot -/
+theorem hole_templates_clean_scalar : ∀ op ∈ ops, usesMaps op.tpl = false → holeChecked op (holeEnv 0 false) = true := by
+  decide +kernel
+
+set_option maxRecDepth 1000000 in
+/-- templates that iterate over a mapping (property map, merge strategies, counted components): one evaluation per argument shape -
+mappings absent or empty, one / two / three entries, with and without counted components - with a hole in every identifier slot,
+every map key, merge behaviour and component type -/
+theorem hole_templates_clean_maps :
+    ∀ op ∈ ops.filter (fun op => usesMaps op.tpl), ∀ e ∈ holeEnvs, op.reachable e = true → holeChecked op e = true := by
+  decide +kernel
+
+theorem hole_templates_clean (op : Op) (hop : op ∈ ops) (e : Env) (he : e ∈ holeEnvs) (hr : op.reachable e = true) :
+    holeChecked op e = true := by
+  cases hm : usesMaps op.tpl with
+  | true => exact hole_templates_clean_maps op (List.mem_filter.mpr ⟨hop, hm⟩) e he hr
+  | false =>
+    have h0 := hole_templates_clean_scalar op hop hm
+    have hi : e.idents = (holeEnv 0 false).idents ∧ e.values = (holeEnv 0 false).values := by
+      simp only [holeEnvs, List.mem_cons, List.not_mem_nil, or_false] at he
+      rcases he with rfl | rfl | rfl | rfl | rfl | rfl <;> exact ⟨rfl, rfl⟩
+    unfold holeChecked at h0 ⊢
+    rw [render_noMaps op.tpl hm e _ hi.1 hi.2, renderOK_noMaps op.tpl hm e (holeEnv 0 false)]
+    exact h0
+
+/-- WELL-FORMEDNESS FOR ALL IDENTIFIERS.  For every statement template the translator extracted, every argument shape in
+`holeEnvs` in which the template can run, and EVERY assignment `ρ` of identifier-shaped non-keyword strings to the identifier
+slots (class, relation, property names; map keys; merge behaviours; component types - map keys other than the reserved
+`Class` / `GraphID` / `NodeID`, which would replace an entry of the statement's own dict literal): the statement handed to the
+driver passes the lint - balanced, nothing unexpanded, parameters supplied, variables bound, operands present, no dangling comma,
+clauses in order.  (Stored values and counts are the canonical ones here; see `wellformed_all_identifiers_all_values`.) -/
+theorem wellformed_all_identifiers (op : Op) (hop : op ∈ ops) (e : Env) (he : e ∈ holeEnvs) (hr : op.reachable e = true)
+    (ρ : Nat → Text) (hρ : GoodSubst ρ) : checkStmt (render (e.expandAll ρ) op.tpl) op.supplied = true := by
+  have h := hole_templates_clean op hop e he hr
+  simp only [holeChecked, Bool.and_eq_true] at h
+  exact checkStmt_all_identifiers hρ e op.tpl op.supplied h.1.1 h.1.2 h.2
+
+/-- … and for the value-free call sites for ALL stored values as well: any environment that agrees with a filled shape after
+forgetting the stored values -/
+theorem wellformed_all_identifiers_all_values (op : Op) (hop : op ∈ ops) (hk : op.key ∉ valueDependentKeys) (e0 : Env)
+    (he : e0 ∈ holeEnvs) (hr : op.reachable e0 = true) (ρ : Nat → Text) (hρ : GoodSubst ρ) (e : Env)
+    (hs : e.erase = (e0.expandAll ρ).erase) : checkStmt (render e op.tpl) op.supplied = true :=
+  wellformed_extends_to_all_values op.tpl (value_free_except_listed op hop hk) op.supplied (e0.expandAll ρ) e hs
+    (wellformed_all_identifiers op hop e0 he hr ρ hρ)
+
+/-- non-vacuity: filling every hole with `X` gives the canonical one-row environment (up to the merge behaviour / component type,
+which are `X` too); with the sample filling `add_node` gets its label and a property key from the vocabulary -/
+example : ((holeEnv 1 true).expandAll (fun _ => t!"X")).idents = canonEnv.idents := by decide +kernel
+example : render ((holeEnv 1 true).expandAll rhoSample) op_Neo4jPropertyGraph_add_node_s0_v0.tpl =
+    t!"CALL apoc.create.node([ 'GraphNode', 'NetworkNode' ], { Class: 'NetworkNode', GraphID: 'v', NodeID: 'v', Site: 'v' });" := by
+  decide +kernel
 
 end FimVerif.C19
